@@ -700,7 +700,10 @@ def _validate_path(res, fn, cfg, ctx, sx, rng, known):
     rng.shuffle(names)
     base = list(ctx.pc)
     for n in names[:10]:
-        val = Fraction(rng.randint(-32, 32), 8)
+        # dyadic and decimal candidates: decimals (0.1, 0.3, ...) are not exactly representable in binary64, so the native
+        # run also exercises the rounding behaviour the REAL theory abstracts from
+        den = rng.choice((8, 10, 10, 5, 1000))
+        val = Fraction(rng.randint(-4 * den, 4 * den), den)
         cand = ctx.inputs[n] == z3.RealVal(val)
         r, _ = fresh_check(base + pins + [cand], 3000, stats=res.stats)
         if r == "sat":
@@ -722,7 +725,13 @@ def _validate_path(res, fn, cfg, ctx, sx, rng, known):
         # different path natively (rounding at a branch): not comparable
         return False
     if bad:
-        res.validation_mismatch.append(dict(kind="native check violated", detail=[b[0] for b in bad], inputs=model, cfg=_jsonable(cfg)))
+        # the real code, run natively on a solver-generated witness of this path, violates an obligation that holds over the
+        # reals: a genuine violation of the property on a concrete input (typically a binary64 rounding effect).  Reported as
+        # a violation (it replays by construction), marked with how it was found.
+        res.violations.append(dict(obligation=bad[0][0], cfg=_jsonable(cfg), inputs=model, harness=res.harness, prop=res.prop,
+                                   info=dict(found_by="native replay of a solver-generated path witness (differential validation); "
+                                                      "the obligation is discharged over the reals, the violation is a floating-point effect",
+                                             all_violated=[b[0] for b in bad][:8])))
         return True
     # observed values
     if len(sx.observed) == len(sxc.observed):
